@@ -213,6 +213,35 @@ def check(ctx: Ctx) -> None:
         ctx.violation('C02.d', 'OFDM._remove_CP', 'does not drop exactly the leading cp_size columns of rows of length '
                       'fft_size + cp_size', rem.path, rem.lineno, operand='remove')
 
+    # ------------------------------------------------------------------ C02.f
+    ctx.rule('C02.f', 'the equaliser takes the channel gains from the reported response\'s own frequency-response provider', floor=1)
+    eq = M.func(OF, 'OfdmOneTapEqualizer.equalize_data')
+    ctx.instance('C02.f', 'OfdmOneTapEqualizer.equalize_data')
+    ir = [x for x in eq.params if x not in ('self', 'data')][0]
+    prov = [n for n in walk_no_nested(eq.node) if isinstance(n, ast.Call) and norm(n.func) == ir + '.get_freq_response']
+    own_fft = [n for n in walk_no_nested(eq.node) if isinstance(n, ast.Call) and norm(n.func).endswith('fft.fft')]
+    sparse = [n for n in walk_no_nested(eq.node) if isinstance(n, ast.Attribute) and n.attr in ('tap_values_sparse', '_tap_values_sparse')]
+    loc = {n.targets[0].id: norm(n.value) for n in walk_no_nested(eq.node) if isinstance(n, ast.Assign) and isinstance(n.targets[0], ast.Name)}
+    if prov and not own_fft:
+        arg = norm(prov[0].args[0]) if prov[0].args else ''
+        ok = loc.get(arg, arg) in ('self._ofdm_obj.fft_size', 'fft_size') and loc.get('fft_size', 'self._ofdm_obj.fft_size') == 'self._ofdm_obj.fft_size'
+        ctx.obligation('C02.f', 'OfdmOneTapEqualizer.equalize_data', ok, {'provider_call': norm(prov[0])})
+        if not ok:
+            ctx.violation('C02.f', 'OfdmOneTapEqualizer.equalize_data', 'the frequency response is requested for `%s`, not for the FFT size '
+                          'of the OFDM object' % arg, eq.path, eq.lineno, operand='fft-size')
+    elif sparse:
+        ctx.obligation('C02.f', 'OfdmOneTapEqualizer.equalize_data', False, {'reads': [norm(n) for n in sparse]})
+        ctx.violation('C02.f', 'OfdmOneTapEqualizer.equalize_data', 'the channel gains are computed from the SPARSE tap values (`%s`), '
+                      'which carry no delays: for any tap layout whose delays are not 0,1,...,L-1 the one-tap equaliser divides by the '
+                      'wrong frequency response' % norm(sparse[0]), eq.path, sparse[0].lineno, operand='sparse-taps')
+    else:
+        ctx.error('C02.f: equalize_data obtains the frequency response neither from %s.get_freq_response() nor from a recognisably wrong '
+                  'source (cannot tell)' % ir)
+    # ------------------------------------------------------------------ C02.e
+    from ..dsf import auto_memo_check
+    ctx.rule('C02.e', 'no auto-discovered lazily filled cache of the classes in the anchored modules can be stale at the exit of a public method (dependencies = what the fill expression reads, incl. mutating calls on held sub-objects)', floor=2)
+    auto_memo_check(ctx, 'C02.e', [OF])
+
 
 def thorough(ctx: Ctx) -> None:
     """Advisory, package-wide: other -E slice bounds (not verdict relevant: outside every property's quantifier)."""
@@ -249,6 +278,9 @@ MUTANTS = [
     Mutant('fft-other-axis', OF, 'OFDM.demodulate', [('replace', 'self.fft_size, 1)', 'self.fft_size, 0)')], r'C02\.d:.*fft-geometry'),
     Mutant('prefix-from-head', OF, 'OFDM._add_CP', [('replace', 'input_data[:, -self.cp_size:]', 'input_data[:, :self.cp_size]')],
            r'C02\.d:OFDM\._add_CP'),
+    Mutant('equaliser-fft-of-sparse-taps', OF, 'OfdmOneTapEqualizer.equalize_data',
+           [('replace', 'freq_response = impulse_response.get_freq_response(fft_size)',
+             'freq_response = np.fft.fft(impulse_response.tap_values_sparse, fft_size, axis=0)')], r'C02\.f:OfdmOneTapEqualizer\.equalize_data'),
     Mutant('benign-cp-greater-zero', OF, 'OFDM._add_CP', [('replace', 'if self.cp_size != 0:', 'if self.cp_size > 0:')], None, benign=True),
     Mutant('benign-np-sqrt', OF, 'OFDM.modulate', [('replace', 'math.sqrt(self._calculate_power_scale())', 'np.sqrt(self._calculate_power_scale())')],
            None, benign=True),
@@ -256,3 +288,11 @@ MUTANTS = [
 
 ENGINES = ['model', 'paths', 'terms']
 TECHNIQUE = 'static analysis: validate-before-store, negative-zero slice idiom, provider agreement between sibling functions, term factors'
+
+
+def sweep(overlay):
+    from ..selftest import simple_statement, sweep_lines
+    out = []
+    for q in ('OFDM.set_parameters', 'OFDM._add_CP', 'OFDM._remove_CP', 'OFDM.modulate', 'OFDM.demodulate'):
+        out += sweep_lines(overlay, OF, q, lambda t: simple_statement(t) or t.startswith('raise '), 'C02')
+    return out
